@@ -33,8 +33,8 @@ func init() {
 
 func runC05(e *Env) {
 	widths, hyph := ruleC05Layout(e)
-	ruleC05Pos(e, widths, hyph)
-	ruleC05Nib(e, hyph)
+	_ = widths
+	ruleC05Sem(e, "C05.nib")
 	ruleC05Digit(e)
 	ruleC05Strict(e, hyph)
 	ruleC05Ver(e)
@@ -45,8 +45,7 @@ func runC05(e *Env) {
 	ruleDeleg(e, "C05.deleg", "uu")
 	e.S.Floor("C05.deleg", 12)
 	e.S.Floor("C05.layout", 12)
-	e.S.Floor("C05.pos", 4)
-	e.S.Floor("C05.nib", 33)
+	e.S.Floor("C05.nib", 2)
 	e.S.Floor("C05.digit", 6)
 	e.S.Floor("C05.strict", 8)
 	e.S.Floor("C05.ver", 9)
@@ -1077,4 +1076,171 @@ func ruleC05Ver(e *Env) {
 			e.S.Bad(rule, flow.FnName(vari), construct, fmt.Sprintf("Variant() = %v, RFC 4122 (number of leading 1 bits, at most 3) gives %d", out.Ret, want), e.Pos(vari), "")
 		}
 	}
+}
+
+// ruleC05Sem: the UUID parser's digit placement decided by its meaning. DefaultParser is evaluated on a text of the
+// plain layout (36 bytes, hyphens at 8, 13, 18, 23) and of the URN layout (45 bytes, the lower-case prefix, hyphens
+// nine further), flags clear, with the digit function replaced by "the four bits of the digit at text position k".
+// The result must be the ID whose Higher word holds the first sixteen hexadecimal digits, most significant first,
+// and whose Lower word the other sixteen — however the words are accumulated (indexed array with OR, shift-and-OR,
+// helpers). A hyphen expected anywhere else, or a digit read from a hyphen position, fails the evaluation.
+func ruleC05Sem(e *Env, rule string) {
+	dp := e.Fn(rule, "uu", "DefaultParser")
+	if dp == nil {
+		return
+	}
+	site := flow.FnName(dp)
+	pos := e.Pos(dp)
+	const prefix = "urn:uuid:"
+	for _, lay := range []struct {
+		name   string
+		length int
+		off    int
+	}{{"plain layout", 36, 0}, {"URN layout", 45, len(prefix)}} {
+		hy := map[int]bool{lay.off + 8: true, lay.off + 13: true, lay.off + 18: true, lay.off + 23: true}
+		// text positions of the 32 digits, in order
+		var digitPos []int
+		for k := lay.off; k < lay.length; k++ {
+			if !hy[k] {
+				digitPos = append(digitPos, k)
+			}
+		}
+		elemIndex := func(v pred.Val) (int, bool) {
+			el, ok := v.(pred.Elem)
+			if !ok || el.Base.String() != "input" {
+				return 0, false
+			}
+			c, ok := el.Index.(pred.Const)
+			if !ok || c.V == nil {
+				return 0, false
+			}
+			k, exact := constant.Int64Val(c.V)
+			return int(k), exact
+		}
+		fixed := func(a, b pred.Val) (int, bool, bool) {
+			as, bs := a.String(), b.String()
+			c, isC := b.(pred.Const)
+			switch {
+			case as == "*uu.MaxInputLength" && bs == "0":
+				return 0, true, true
+			case as == "len(input)" && isC && c.V != nil && c.V.Kind() == constant.Int:
+				k, _ := constant.Int64Val(c.V)
+				return sgn(lay.length - int(k)), true, true
+			}
+			if k, ok := elemIndex(a); ok && isC && c.V != nil && c.V.Kind() == constant.Int {
+				want, _ := constant.Int64Val(c.V)
+				switch {
+				case hy[k]:
+					return sgn('-' - int(want)), true, true
+				case k < lay.off:
+					return sgn(int(prefix[k]) - int(want)), true, true
+				}
+				return 0, false, false // a hexadecimal digit is compared with a constant outside the digit function
+			}
+			if bits, ok := a.(pred.Bits); ok && bs == "0" {
+				for _, bit := range bits.B {
+					if bit.K == '1' {
+						return 1, true, true
+					}
+					if bit.K == 's' && bit.Sym != "r" {
+						return 0, false, false
+					}
+				}
+				return 0, true, true // rule flags clear
+			}
+			return 0, false, false
+		}
+		badDigit := ""
+		fallback := func(fn *ssa.Function, args []pred.Val) (pred.Val, bool, error) {
+			// the digit function: a function of the module that receives one input byte and returns (value, ok)
+			k, found := 0, false
+			for _, a := range args {
+				if i, ok := elemIndex(a); ok {
+					if found {
+						return nil, false, nil
+					}
+					k, found = i, true
+				}
+			}
+			if !found || fn.Signature.Results().Len() != 2 {
+				return nil, false, nil
+			}
+			if hy[k] || k < lay.off || k >= lay.length {
+				badDigit = fmt.Sprintf("a digit is read from text position %d, which holds a hyphen or lies outside the digits", k)
+			}
+			w, _, ok := intWidth(fn.Signature.Results().At(0).Type())
+			if !ok {
+				return nil, false, nil
+			}
+			b := pred.Bits{B: make([]pred.Bit, w)}
+			for i := range b.B {
+				b.B[i] = pred.Bit{K: '0'}
+				if i < 4 {
+					b.B[i] = pred.Bit{K: 's', Sym: fmt.Sprintf("d%d", k), Idx: i}
+				}
+			}
+			return pred.Tuple{b, pred.Const{V: constant.MakeBool(true)}}, true, nil
+		}
+		o := &treeOracle{assign: map[string]int{}, fixed: fixed, keyOf: func(a, b pred.Val) (string, bool) { return "", false }}
+		ev := &pred.Evaluator{Prog: e.P.SSA, Oracle: o, GlobalInit: e.globalTables(), Fallback: fallback}
+		out, err := ev.Eval(dp, []pred.Val{pred.Sym{Name: "input"}, pred.SymBits("r", 64, true)})
+		if err != nil {
+			e.S.Unk(rule, site, lay.name, "not evaluable: "+err.Error(), pos)
+			continue
+		}
+		t, ok := out.Ret.(pred.Tuple)
+		if out.Panic || !ok || len(t) != 2 {
+			e.S.Unk(rule, site, lay.name, "unexpected result "+out.Ret.String(), pos)
+			continue
+		}
+		if t[1].String() != "nil" {
+			e.S.Bad(rule, site, lay.name, "a text of the "+lay.name+" with hyphens at the documented positions is rejected: "+t[1].String(), pos, "")
+			continue
+		}
+		id, ok := t[0].(*pred.StructV)
+		if !ok || len(id.Fields) != 2 {
+			e.S.Unk(rule, site, lay.name, "the result is not an ID value: "+t[0].String(), pos)
+			continue
+		}
+		bad := badDigit
+		for word := 0; word < 2 && bad == ""; word++ {
+			bits, ok := id.Fields[word].(pred.Bits)
+			if !ok || len(bits.B) != 64 {
+				bad = fmt.Sprintf("word %d of the ID is %v, not a composition of digit bits", word, id.Fields[word])
+				break
+			}
+			for m := 0; m < 16 && bad == ""; m++ {
+				p := digitPos[word*16+m]
+				for b := 0; b < 4; b++ {
+					got := bits.B[60-4*m+b]
+					if got.K != 's' || got.Sym != fmt.Sprintf("d%d", p) || got.Idx != b {
+						bad = fmt.Sprintf("bit %d of %s does not come from bit %d of the digit at text position %d (big-endian order: digit %d of the text is nibble %d of that word)", 60-4*m+b, []string{"Higher", "Lower"}[word], b, p, word*16+m, 15-m)
+						break
+					}
+				}
+			}
+		}
+		if bad != "" {
+			e.S.Bad(rule, site, lay.name, bad, pos, "")
+		} else {
+			e.S.Ok(rule, site, lay.name, "the 32 digits land in Higher (first sixteen) and Lower (last sixteen), most significant first; hyphens are expected exactly at "+fmt.Sprint(lay.off+8, lay.off+13, lay.off+18, lay.off+23), pos)
+		}
+	}
+}
+
+// intWidth: bit width of an integer type.
+func intWidth(t types.Type) (int, bool, bool) {
+	b, ok := t.Underlying().(*types.Basic)
+	if !ok || b.Info()&types.IsInteger == 0 {
+		return 0, false, false
+	}
+	switch b.Kind() {
+	case types.Int8, types.Uint8:
+		return 8, b.Kind() == types.Int8, true
+	case types.Int16, types.Uint16:
+		return 16, b.Kind() == types.Int16, true
+	case types.Int32, types.Uint32:
+		return 32, b.Kind() == types.Int32, true
+	}
+	return 64, b.Info()&types.IsUnsigned == 0, true
 }
